@@ -4,7 +4,7 @@
    slices is numeric comparison.  sort.Sort is a parameter (any function returning a permutation sorted
    w.r.t. the non-strict Less of ipPairs); go_insertion_sort is what sort.Sort does for < 12 elements.
    The i/j/k index loops of mergeItems/checkMerge are written as a list zipper: [cur] is items[i],
-   [passed] holds items[i+1 .. j-1] in reverse, [rest] is items[j ..]. *)
+   [passed] holds items[i+1 .. j-1], [rest] is items[j ..]. *)
 From Coq Require Import List ZArith Bool.
 Import ListNotations.
 Open Scope Z_scope.
@@ -61,19 +61,19 @@ Fixpoint kill_between (p : list rng) : list rng * Z :=
               if is_zero (snd k) then (k :: r', c) else (tomb :: r', c + 1)
   end.
 
-(* inner loop of mergeItems for fixed i: j runs over rest *)
+(* inner loop of mergeItems for fixed i: j runs over rest; passed = items[i+1 .. j-1] *)
 Fixpoint inner (cur : rng) (passed : list rng) (rest : list rng) (cnt : Z) {struct rest}
   : rng * list rng * Z :=
   match rest with
-  | [] => (cur, rev passed, cnt)
+  | [] => (cur, passed, cnt)
   | x :: rest' =>
     (* note: the code tests items[j].endIP against IPv6zero only, and items[i].endIP against IPv4zero *)
-    if (snd x =? 0) || (snd cur =? Z4) then inner cur (x :: passed) rest' cnt
+    if (snd x =? 0) || (snd cur =? Z4) then inner cur (passed ++ [x]) rest' cnt
     else if fst cur <=? snd x then              (* checkMerge: items[j].endIP >= items[i].startIP *)
       let cur' := (fst x, if snd cur <=? snd x then snd x else snd cur) in
       let '(passed', c) := kill_between passed in
-      inner cur' (tomb :: passed') rest' (cnt + 1 + c)
-    else inner cur (x :: passed) rest' cnt
+      inner cur' (passed' ++ [tomb]) rest' (cnt + 1 + c)
+    else inner cur (passed ++ [x]) rest' cnt
   end.
 
 (* outer loop: i runs over the list; fuel = length *)
